@@ -1,6 +1,7 @@
 import Redproxy.Model.Frames
 import Redproxy.Lemmas.Rd
 import Redproxy.Lemmas.RdEval
+import Redproxy.Lemmas.AddrText
 /-!
 # C03 — destination integrity through every protocol re-encoding
 
@@ -307,5 +308,72 @@ theorem socks4_request_refused (cmd p : Nat) (auth : Option (Bytes × Bytes)) :
     exact ⟨"domain name not representable in socks4a", by simp [writeRequest, writeRequestV4, runFlat_bind, hd]⟩
   · intro ip hip
     exact ⟨"address not representable in socks4", by simp [writeRequest, writeRequestV4, runFlat_bind, hip]⟩
+
+/-! ## HTTP CONNECT (and every other place a destination travels as text): `Display` then `FromStr`
+
+The CONNECT request line, the `Host` header and `Udp-Bind-Source` carry `TargetAddress::to_string()`; the next hop
+reads it back with `TargetAddress::from_str`.  (The line framing around the text — `splitn(3, ' ')`, CRLF — is
+covered by the correspondence and by `Http.hostOkForConnect`, which refuses hosts containing the framing bytes.) -/
+
+open AddrText in
+/-- an IPv4 destination survives `to_string` / `from_str` exactly, for every address and port -/
+theorem text_roundtrip_v4 (tbl : V6Tbl) (ip p : Nat) (hip : ip < 4294967296) (hp : p < 65536) :
+    Addr.parse tbl (Addr.toText tbl (.v4 ip p)) = some (.v4 ip p) := by
+  have o (n : Nat) (hn : n < 256) : Addr.parseOctet (showNat n) = some n ∧ Addr.dot ∉ showNat n := by
+    obtain ⟨hne, hall, hval, hlead, h3⟩ := showNat_spec n
+    refine ⟨?_, digit_not _ (by decide) _ hall⟩
+    unfold Addr.parseOctet
+    have hl := h3 (by omega)
+    have hn' : n ≤ 255 := by omega
+    simp [hne, hall, hval, hl, hlead, hn']
+  obtain ⟨hpne, hpall, hpval, _, _⟩ := showNat_spec p
+  have hpc : (0x3A : Nat) ∉ showNat p := digit_not _ (by decide) _ hpall
+  obtain ⟨oa, da⟩ := o (ip / 16777216 % 256) (by omega)
+  obtain ⟨ob, db⟩ := o (ip / 65536 % 256) (by omega)
+  obtain ⟨oc, dc⟩ := o (ip / 256 % 256) (by omega)
+  obtain ⟨od, dd⟩ := o (ip % 256) (by omega)
+  have hsock : Addr.parseSock4 (Addr.showIp4 ip ++ [Addr.colon] ++ showNat p) = some (.v4 ip p) := by
+    unfold Addr.parseSock4
+    rw [show Addr.colon = 0x3A from rfl, rsplitColon_append _ _ hpc]
+    simp only [Addr.showIp4, Addr.ip4Octets, List.append_assoc, List.cons_append, List.nil_append]
+    rw [splitAll_append _ _ _ da, splitAll_append _ _ _ db, splitAll_append _ _ _ dc, splitAll_notin _ _ dd]
+    have hport : Addr.parsePortStd (showNat p) = some p := by
+      unfold Addr.parsePortStd
+      have hp' : p ≤ 65535 := by omega
+      simp [hpne, hpall, hpval, hp']
+    simp only [hport, oa, ob, oc, od, ip4_roundtrip ip hip]
+  simp only [Addr.parse, Addr.toText, hsock]
+
+open AddrText in
+/-- a host name survives `to_string` / `from_str` exactly — colons inside the name included — unless the text is what
+std reads as an IPv4 or IPv6 socket address (explicit hypotheses: then the same text denotes that address) -/
+theorem text_roundtrip_domain (tbl : V6Tbl) (h : Bytes) (p : Nat) (hp : p < 65536)
+    (hnot4 : Addr.parseSock4 (h ++ [Addr.colon] ++ showNat p) = none)
+    (hnot6 : ∀ e ∈ tbl, e.1 ≠ h ++ [Addr.colon] ++ showNat p) :
+    Addr.parse tbl (Addr.toText tbl (.domain h p)) = some (.domain h p) := by
+  obtain ⟨hpne, hpall, hpval, _, _⟩ := showNat_spec p
+  have hpc : (0x3A : Nat) ∉ showNat p := digit_not _ (by decide) _ hpall
+  have hu16 : parseU16 (showNat p) = some p := by
+    have := parseUnsigned_digits 65535 (showNat p) hpne hpall (by omega)
+    rw [hpval] at this
+    exact this
+  have htext : Addr.toText tbl (.domain h p) = h ++ [0x3A] ++ showNat p := rfl
+  simp only [Addr.colon] at hnot4 hnot6
+  rw [htext]
+  unfold Addr.parse
+  simp only [hnot4, rsplitColon_append _ _ hpc, hu16]
+  split
+  · next e heq =>
+    have hm := List.mem_of_find?_eq_some heq
+    have hp' := List.find?_some heq
+    simp only [decide_eq_true_eq] at hp'
+    exact absurd hp' (hnot6 e hm)
+  · rfl
+
+-- the hypotheses are satisfiable, and needed: a dotted-quad "host name" is an IPv4 address to the next hop
+-- ("example.com", "1.2.3.4", "a:b" as bytes)
+example : Addr.parseSock4 ([101,120,97,109,112,108,101,46,99,111,109] ++ [Addr.colon] ++ showNat 443) = none := by decide
+example : Addr.parse [] (Addr.toText [] (.domain [49,46,50,46,51,46,52] 80)) = some (.v4 16909060 80) := by decide
+example : Addr.parse [] (Addr.toText [] (.domain [97,58,98] 80)) = some (.domain [97,58,98] 80) := by decide
 
 end Redproxy.Props.C03
